@@ -146,28 +146,50 @@ theorem C05_text_productions :
     JsonTextTable.wellFormedTexts.all (fun t => JsonText.verdict t == .wellFormed) = true := by
   constructor <;> decide +kernel
 
-/-- Text level.  For every parser `loads` that raises on the texts the grammar rejects (hypothesis
-    `hstrict`: holds for the parser the library calls — extracted facts `stdlibLoadsPlain`,
-    `loadsParsesWholeBody`, and the comparison of `JsonText.verdict` with the real `jloads` / `loads`
-    on every body of every run, component `jsontext`), a malformed body is answered with the single
-    −32700 error object and nothing is invoked. -/
-theorem C05_malformed_text (s : Server) (loads : List Char → ParseOutcome)
-    (hstrict : ∀ t, JsonText.verdict t = .malformed → loads t = .parseError)
-    (t : List Char) (h : JsonText.verdict t = .malformed) :
-    marshaledDispatch s (loads t) =
+/-- The empty body (`""`, `b""`: `not data`) is answered with the single −32700 error object and nothing is
+    invoked, whatever `loads` would have returned for it: the dispatcher raises inside its parse `try`
+    before calling `loads` (fix e82f118; extracted fact `emptyBodyRejectedInParseTry`). -/
+theorem C05_empty_body (s : Server) (po : ParseOutcome) :
+    marshaledDispatchBody s true po =
       (.ok (.doc (Payload.error s.cfg.version .none (.int (-32700)) (.str msgParse) .none)), []) := by
-  rw [hstrict t h]; exact C05_parse s
+  simp only [marshaledDispatchBody, ↓reduceIte]; exact C05_parse s
+
+/-- Text level.  For every parser `loads` that raises on the non-empty texts the grammar rejects
+    (hypothesis `hstrict`: holds for the parser the library calls — extracted facts `stdlibLoadsPlain`,
+    `loadsParsesWholeBody`, and the comparison of `JsonText.verdict` with the real `jloads` on every body
+    of every run, component `jsontext`; nothing is asked of `loads` on the empty text, for which the real
+    `jsonrpclib.loads` returns `None`), every body RFC 8259 rejects — the empty one included, without a
+    special case in the conclusion — is answered with the single −32700 error object and nothing is
+    invoked. -/
+theorem C05_malformed_text (s : Server) (loads : List Char → ParseOutcome)
+    (hstrict : ∀ t, t ≠ [] → JsonText.verdict t = .malformed → loads t = .parseError)
+    (t : List Char) (h : JsonText.verdict t = .malformed) :
+    marshaledDispatchBody s t.isEmpty (loads t) =
+      (.ok (.doc (Payload.error s.cfg.version .none (.int (-32700)) (.str msgParse) .none)), []) := by
+  cases t with
+  | nil => exact C05_empty_body s _
+  | cons c cs =>
+    simp only [marshaledDispatchBody, List.isEmpty_cons, Bool.false_eq_true, ↓reduceIte]
+    rw [hstrict (c :: cs) (by simp) h]; exact C05_parse s
+
+/-- The empty text is malformed (it is not a `ws value ws`). -/
+theorem C05_text_empty_malformed : JsonText.verdict [] = .malformed := by decide
 
 /- Non-vacuity: the request of the seeded edit (a raw TAB inside an argument) is malformed, its escaped
-   twin is well-formed; a parser satisfying `hstrict` exists. -/
+   twin is well-formed; a parser satisfying `hstrict` that — like the real `loads` — returns `None` for the
+   empty text exists; a body that *parses* to a falsy value (`null`) is well-formed: it is answered −32600
+   "no request data" (`C05_invalid_toplevel`), not −32700. -/
 example : JsonText.verdict ['{', '"', 'p', '"', ':', ' ', '[', '"', 'a', Char.ofNat 9, 'b', '"', ']', '}'] = .malformed := by
   decide +kernel
 example : JsonText.verdict ['{', '"', 'p', '"', ':', ' ', '[', '"', 'a', '\\', 't', 'b', '"', ']', '}'] = .wellFormed := by
   decide +kernel
-example : ∀ t, JsonText.verdict t = .malformed →
-    (fun t => if JsonText.verdict t = .malformed then ParseOutcome.parseError else .parsed .none) t = .parseError := by
-  intro t h; simp [h]
-example : JsonText.verdict [] = .noData := by decide
+example : ∀ t, t ≠ [] → JsonText.verdict t = .malformed →
+    (fun t => if t = [] then ParseOutcome.parsed .none
+              else if JsonText.verdict t = .malformed then ParseOutcome.parseError else .parsed .none) t = .parseError := by
+  intro t hne h; simp [hne, h]
+example : JsonText.verdict ['n', 'u', 'l', 'l'] = .wellFormed := by decide +kernel
+example : (marshaledDispatchBody { cfg := {} } false (.parsed .none)).1
+    = .ok (.doc (Payload.error 20 .none (.int (-32600)) (.str msgNoData) .none)) := by decide +kernel
 
 /- ---------- −32600 ---------- -/
 
@@ -187,7 +209,8 @@ theorem C05_invalid (s : Server) (e : PyVal) (h : wfRequest e = false) :
     · simp [respond, entryNF, hv, faultDump, hc, hm, hid, hd, codeInvalid]
     · simp [entryEffects, entryNF, hv]
 
-/-- At top level: an empty body, `null`, `0`, `""`, `[]`, `{}` … (falsy) is −32600 "no request data";
+/-- At top level: a body that parses to a falsy value — `null`, `0`, `false`, `""`, `[]`, `{}` — is −32600
+    "no request data" (the empty body itself never gets here: `C05_empty_body`);
     any other value that is not a well-formed request object or a list is −32600 as an entry. -/
 theorem C05_invalid_toplevel (s : Server) (hpool : s.pool ≠ .full) (e : PyVal) :
     (e.truthy = false →
